@@ -202,6 +202,26 @@ def atomic(ctx) -> None:
     ctx.check(not outside, 'R-OWNER', f'{POSIX}:Registry', f'marker paths are derived only inside posix.Registry (other sites: {outside})', key='marker-owner', loc=POSIX)
 
 
+def staged_guard(ctx) -> None:
+    """A generation is committed only from states staged under that very release: inside the loop over the tag's state ids a
+    missing staged file refuses the commit - unconditionally (no resume/skip path) - before anything of this state is moved."""
+    prog = ctx.prog
+    cl = prog.func(f'{POSIX}:Registry.close')
+    loops = [x for x in core.walk_local(cl.node) if isinstance(x, ast.For) and core.src(x.iter) == 'tag.states']
+    ctx.check(len(loops) == 1, 'C05.staged', cl, 'the commit visits every state id of the tag', cl.node, key='close:loop')
+    if len(loops) != 1:
+        return
+    lp = loops[0]
+    sid = core.src(lp.target)
+    rs = [r for r in ast.walk(lp) if isinstance(r, ast.Raise)]
+    ok = len(rs) == 1 and 'Invalid' in core.src(rs[0]) and cfg.cguards(rs[0], lp) == [('source.exists()', False)]
+    ctx.check(ok, 'C05.staged', cl, f'an unstaged state refuses the commit (raise under exactly `not source.exists()`; found {[cfg.cguards(r, lp) for r in rs]})', rs[0] if rs else lp, key='close:unstaged')
+    srcs = [a for a in ast.walk(lp) if isinstance(a, ast.Assign) and core.src(a.targets[0]) == 'source']
+    ctx.check(len(srcs) == 1 and core.src(srcs[0].value) == f'self._path.state({sid}, project, release)', 'C05.staged', cl, 'the staged file is looked up under this project and release (no generation yet)', srcs[0] if srcs else lp, key='close:source')
+    mv = [st for st in lp.body if isinstance(st, ast.Expr) and core.src(st.value) == 'source.rename(target)']
+    ctx.check(len(mv) == 1 and not any(isinstance(x, ast.Continue) for x in ast.walk(lp)), 'C05.staged', cl, 'every state of the tag is moved into the generation (no skipping)', lp, key='close:move-all')
+
+
 def close_order(ctx) -> None:
     prog = ctx.prog
     _, methods = marker_slots(prog)
@@ -367,6 +387,8 @@ def listing_validity(ctx) -> None:
     for level, const in (('Generation', 'TAGFILE'), ('Release', 'PKGFILE')):
         fn = prog.func(f'{POSIX}:Path.{level}.content')
         ctx.check(f'(level / Path.{const}).exists()' in core.src(fn.node), 'C05.listing', fn, f'a {level.lower()} is visible iff its marker {const} exists', fn.node, key=f'content:{level}')
+        rr = [r for r in core.walk_local(fn.node) if isinstance(r, ast.Return)]
+        ctx.check(len(rr) == 1 and core.src(rr[0].value) == f'(level / Path.{const}).exists()', 'C05.listing', fn, f'... and on nothing else: the marker alone decides (a generation without states, a release without generations are still listed) - `{core.src(rr[0].value) if rr else None}`', fn.node, key=f'content:{level}:only-marker')
     for call, level in (('generations', 'Generation'), ('releases', 'Release'), ('projects', 'Project')):
         fn = prog.func(f'{POSIX}:Registry.{call}')
         ctx.check(f'Path.{level})' in core.src(fn.node), 'C05.listing', fn, f'{call}() lists with the {level} matcher', fn.node, key=f'{call}:matcher')
@@ -498,6 +520,7 @@ def key_paths(ctx) -> None:
 
 def run(ctx) -> None:
     key_paths(ctx)
+    staged_guard(ctx)
     from . import C08
 
     C08.eqhash_agreement(ctx, ('forml.io.asset',), floor=3)
